@@ -15,7 +15,10 @@ META = {
     'rule': ('Hypothesis-generated (min,max,bits,symmetry,dtype,shape) and '
              'tensors of rank 0..4 with any quantized dimension; plus every '
              'integer code of the 4- and 8-bit types against a grid of '
-             'library-produced parameter sets. Non-trivial = asymmetric with '
+             'library-produced parameter sets; a sub-population of ranges and '
+             'tensors lies exactly on the code lattice so that the zero point '
+             'is exactly 0, an end of the type or next to one, and min/max are '
+             'exactly the end codes. Non-trivial = asymmetric with '
              'zero point != 0, or per-channel with >= 2 channels; distinct by '
              'hash of the drawn case.'),
     'assumptions': [
@@ -50,14 +53,25 @@ def _fl(lo, hi, width):
   return st.floats(lo, hi, width=width)
 
 
+EDGE_ZPS = lambda lo, hi: [lo, lo, lo + 1, -1, 0, 0, 0, 1, hi - 1, hi, hi]
+
+
 @st.composite
-def ranges(draw, width=None):
+def ranges(draw, width=None, bits=None):
   if width is None:
     width = draw(st.sampled_from([32, 32, 64]))
   kind = draw(st.sampled_from(['any', 'any', 'moderate', 'moderate', 'moderate',
                                'degenerate', 'positive', 'negative', 'tiny',
-                               'huge', 'zero']))
-  if kind == 'any':
+                               'huge', 'zero'] + (['lattice'] * 3 if bits else [])))
+  if kind == 'lattice':
+    # a range that lies exactly on the code lattice of `bits`: the asymmetric
+    # zero point is exactly the chosen t (incl. 0 and both ends of the type) and
+    # min / max are exactly the lowest / highest code
+    lo_c, hi_c = -(2 ** (bits - 1)), 2 ** (bits - 1) - 1
+    t = draw(st.one_of(st.sampled_from(EDGE_ZPS(lo_c, hi_c)), st.integers(lo_c, hi_c)))
+    step = 2.0 ** draw(st.integers(-12, 8))
+    a, b = (lo_c - t) * step, (hi_c - t) * step
+  elif kind == 'any':
     a, b = draw(_floats(width)), draw(_floats(width))
   elif kind == 'moderate':
     a = draw(_fl(-100, 100, width))
@@ -87,9 +101,10 @@ def ranges(draw, width=None):
 def params_cases(draw):
   nch = draw(st.sampled_from([0, 0, 1, 1, 2, 3]))  # 0: 0-d scalar
   width = draw(st.sampled_from([32, 32, 64]))
-  chans = [draw(ranges(width)) for _ in range(max(1, nch))]
+  bits = draw(st.sampled_from(BITS))
+  chans = [draw(ranges(width, bits)) for _ in range(max(1, nch))]
   dt = chans[0]['dtype']
-  return {'bits': draw(st.sampled_from(BITS)), 'symmetric': draw(st.booleans()),
+  return {'bits': bits, 'symmetric': draw(st.booleans()),
           'dtype': dt, 'zero_d': nch == 0,
           'mins': [c['min'] for c in chans], 'maxs': [c['max'] for c in chans],
           'kinds': [c['kind'] for c in chans],
@@ -166,7 +181,8 @@ def quant_cases(draw):
       'symmetric': draw(st.booleans()),
       'seed': draw(st.integers(0, 2**20)),
       'style': draw(st.sampled_from(['normal', 'positive', 'negative', 'constant',
-                                     'outlier', 'tiny', 'big', 'grid', 'zeros'])),
+                                     'outlier', 'tiny', 'big', 'grid', 'zeros',
+                                     'lattice', 'lattice'])),
       'mag': draw(st.sampled_from([1e-3, 0.1, 1.0, 7.3, 300.0])),
       # statistics: the tensor's own min/max, or a range that clips / is wider
       'stat': draw(st.sampled_from(['own', 'own', 'own', 'narrow', 'wide'])),
@@ -199,6 +215,19 @@ def _tensor(case):
     a = np.round(a * 2) / 2 * mag
   elif style == 'zeros':
     a = np.zeros(shape)
+  elif style == 'lattice':
+    # values on the exact code lattice, both end codes present: the tensor's own
+    # asymmetric parameters are (zero point t, scale step) exactly
+    lo_c, hi_c = -(2 ** (case['bits'] - 1)), 2 ** (case['bits'] - 1) - 1
+    edge = EDGE_ZPS(lo_c, hi_c)
+    t = edge[rs.randint(len(edge))] if rs.randint(3) else rs.randint(lo_c, hi_c + 1)
+    step = 2.0 ** rs.randint(-12, 9)
+    codes = np.asarray(rs.randint(lo_c, hi_c + 1, shape) if shape else rs.randint(lo_c, hi_c + 1))
+    if codes.size >= 2:
+      codes.reshape(-1)[0], codes.reshape(-1)[-1] = lo_c, hi_c
+    elif codes.size == 1:
+      codes = np.full(codes.shape, lo_c if rs.randint(2) else hi_c)
+    a = (codes.astype(np.float64) - t) * step
   return np.asarray(a, np.float32)
 
 
@@ -318,9 +347,10 @@ def _grid():
 
 @st.composite
 def code_cases(draw):
-  r = draw(ranges())
-  return {'bits': draw(st.sampled_from(BITS)), 'symmetric': draw(st.booleans()),
-          'dtype': r['dtype'], 'min': r['min'], 'max': r['max'],
+  bits = draw(st.sampled_from(BITS))
+  r = draw(ranges(bits=bits))
+  return {'bits': bits, 'symmetric': draw(st.booleans()),
+          'dtype': r['dtype'], 'min': r['min'], 'max': r['max'], 'kind': r['kind'],
           'codes16_seed': draw(st.integers(0, 2**16))}
 
 
@@ -362,8 +392,10 @@ def run_codes(case):
     i = int(np.argwhere(back != codes)[0][0])
     raise Violation('code_roundtrip', 'code=%d came back %d (%s)' % (codes[i], back[i], case))
   nz = bool(np.any(np.asarray(zp) != 0))
+  zv = int(np.asarray(zp).reshape(-1)[0])
+  edge = 'zp=lowest' if zv == -(2 ** (bits - 1)) else 'zp=highest' if zv == qhi else 'zp=0' if zv == 0 else 'zp=other'
   return core.result(nz and not sym, ['bits=%d' % bits, 'sym' if sym else 'asym',
-                                      'codes=%d' % len(codes), 'zp!=0' if nz else 'zp=0'])
+                                      'codes=%d' % len(codes), ('asym:' + edge) if not sym else 'sym'])
 
 
 # ---------------------------------------------------------------- phase D
